@@ -1,7 +1,7 @@
 (* Props/C11.v -- named gates are the textbook Cliffords; C(0..23) enumerates the one-qubit group.
    The tables gate_H ... gate_C_table are REGENERATED from circuit.py on every run (Gen/Tables.v); every statement below is
    re-checked against them.  Finite statements are decided by computation over the complete finite domain. *)
-From PC Require Import Gen.Tables Model.Base Model.Pauli Model.CMap Model.Circuit Proofs.GateFacts.
+From PC Require Import Gen.Tables Model.Base Model.Pauli Model.CMap Model.Circuit Proofs.GateFacts Model.Spec Model.Ket Model.Poly Model.PolySem Proofs.TraceFacts Proofs.NamedGateFacts.
 
 (* the standard conjugation tables: (image of X_q, image of Z_q) *)
 Theorem C11_H : gate_H = [([Z1], 0); ([X1], 0)].  Proof. exact table_H. Qed.
@@ -73,3 +73,39 @@ Print Assumptions C11_wrong_arity_1.
 Theorem C11_wrong_arity_cnot : forall qs, length qs <> 2%nat -> named_gate 5 qs = None.
 Proof. exact named_guard_cnot. Qed.
 Print Assumptions C11_wrong_arity_cnot.
+(* THE TABLES ARE THE TEXTBOOK GATES: with the unnormalised operators  X+Z (= sqrt2 H),  1+iZ (= (1+i) S^dagger; the table of S is U P U^dagger for the textbook S = V^dagger),
+   X, Y, Z,  1+Z_c+X_t-Z_c X_t (= 2 CNOT)  one has  V^dagger V = s  and  V^dagger P V = s * table(P)  for EVERY Pauli operator P, phase included -- matrix identities in the ket
+   semantics, in the orientation of the library's rotations (C02).  All 24 C(k) are products of at most six H / S factors, with the corresponding product of operators. *)
+Theorem C11_H_is_conjugation_by_hadamard : forall a k0 k', wf 1 a -> length k0 = 1%nat ->
+  amp (pmulp (dag op_H) (pmulp [(c1, a)] op_H)) k0 k' = cmul (zcoef 2) (amp [(c1, transform1 gate_H a)] k0 k').
+Proof. exact table_is_conjugation_H. Qed.
+Print Assumptions C11_H_is_conjugation_by_hadamard.
+Theorem C11_S_is_conjugation_by_phase_gate : forall a k0 k', wf 1 a -> length k0 = 1%nat ->
+  amp (pmulp (dag op_S) (pmulp [(c1, a)] op_S)) k0 k' = cmul (zcoef 2) (amp [(c1, transform1 gate_S a)] k0 k').
+Proof. exact table_is_conjugation_S. Qed.
+Print Assumptions C11_S_is_conjugation_by_phase_gate.
+Theorem C11_XYZ_are_conjugation_by_paulis : forall a k0 k', wf 1 a -> length k0 = 1%nat ->
+  amp (pmulp (dag op_X) (pmulp [(c1, a)] op_X)) k0 k' = cmul (zcoef 1) (amp [(c1, transform1 gate_X a)] k0 k') /\
+  amp (pmulp (dag op_Y) (pmulp [(c1, a)] op_Y)) k0 k' = cmul (zcoef 1) (amp [(c1, transform1 gate_Y a)] k0 k') /\
+  amp (pmulp (dag op_Z) (pmulp [(c1, a)] op_Z)) k0 k' = cmul (zcoef 1) (amp [(c1, transform1 gate_Z a)] k0 k').
+Proof. intros a k0 k' Ha Hk. repeat split; [exact (table_is_conjugation_X a k0 k' Ha Hk) | exact (table_is_conjugation_Y a k0 k' Ha Hk) | exact (table_is_conjugation_Z a k0 k' Ha Hk)]. Qed.
+Print Assumptions C11_XYZ_are_conjugation_by_paulis.
+Theorem C11_CNOT_is_conjugation_both_orderings : forall a k0 k', wf 2 a -> length k0 = 2%nat ->
+  amp (pmulp (dag op_CNOT01) (pmulp [(c1, a)] op_CNOT01)) k0 k' = cmul (zcoef 4) (amp [(c1, transform1 gate_CNOT_asc a)] k0 k') /\
+  amp (pmulp (dag op_CNOT10) (pmulp [(c1, a)] op_CNOT10)) k0 k' = cmul (zcoef 4) (amp [(c1, transform1 gate_CNOT_desc a)] k0 k').
+Proof. intros a k0 k' Ha Hk. split; [exact (table_is_conjugation_CNOT_asc a k0 k' Ha Hk) | exact (table_is_conjugation_CNOT_desc a k0 k' Ha Hk)]. Qed.
+Print Assumptions C11_CNOT_is_conjugation_both_orderings.
+Theorem C11_operators_are_unitary_up_to_scale : forall k1 k1' k2 k2', length k1 = 1%nat -> length k2 = 2%nat ->
+  amp (pmulp (dag op_H) op_H) k1 k1' = cmul (zcoef 2) (amp (ident_poly 1) k1 k1') /\
+  amp (pmulp (dag op_S) op_S) k1 k1' = cmul (zcoef 2) (amp (ident_poly 1) k1 k1') /\
+  amp (pmulp (dag op_CNOT01) op_CNOT01) k2 k2' = cmul (zcoef 4) (amp (ident_poly 2) k2 k2') /\
+  amp (pmulp (dag op_CNOT10) op_CNOT10) k2 k2' = cmul (zcoef 4) (amp (ident_poly 2) k2 k2').
+Proof. intros k1 k1' k2 k2' H1 H2. repeat split; [exact (op_unitary_H k1 k1' H1) | exact (op_unitary_S k1 k1' H1) | exact (op_unitary_CNOT_asc k2 k2' H2) | exact (op_unitary_CNOT_desc k2 k2' H2)]. Qed.
+Print Assumptions C11_operators_are_unitary_up_to_scale.
+Theorem C11_every_C_gate_is_a_conjugation : forall i, (i < 24)%nat ->
+  exists w, (length w <= 6)%nat /\ nth i gate_C_table [] = word_map w /\
+    (forall k0 k', length k0 = 1%nat -> amp (pmulp (dag (word_op w)) (word_op w)) k0 k' = cmul (two_pow (length w)) (amp (ident_poly 1) k0 k')) /\
+    (forall a k0 k', wf 1 a -> length k0 = 1%nat ->
+       amp (pmulp (dag (word_op w)) (pmulp [(c1, a)] (word_op w))) k0 k' = cmul (two_pow (length w)) (amp [(c1, transform1 (nth i gate_C_table []) a)] k0 k')).
+Proof. exact C_table_conjugations. Qed.
+Print Assumptions C11_every_C_gate_is_a_conjugation.
